@@ -576,7 +576,11 @@ def sig_strip(s):
 class Spec:
     props_module = "Mhd.Props.C02"
     lean_targets = ["Mhd.Props.C02", "drv_conn"]
-    required_theorems = ["Mhd.C02.reqline_no_fault", "Mhd.C02.field_no_fault"]
+    required_theorems = ["Mhd.C02.reqline_no_fault", "Mhd.C02.reqline_no_fault_flags", "Mhd.C02.field_no_fault",
+                         "Mhd.C02.field_inv_start", "Mhd.C02.field_inv2_start",
+                         "Mhd.C02.reqline_split_independent", "Mhd.C02.reqline_any_two_segmentations",
+                         "Mhd.C02.field_split_independent", "Mhd.C02.field_any_two_segmentations",
+                         "Mhd.C02.strings_stable", "Mhd.C02.reqline_roundtrip_partial", "Mhd.C02.fields_roundtrip_partial"]
     trusted_base = ["Lean 4 kernel", "axioms: propext, Classical.choice, Quot.sound at most (audited per theorem)",
                     "hand-written model lean/Mhd/Model/Req*.lean tied to connection.c/internal.c/mhd_str.c by this run's correspondence",
                     "tools/props/C02.py translator (strictness thresholds, constants regenerated)",
